@@ -482,7 +482,30 @@ impl<T: RealNumber + ScalarOperand + AddAssign + SubAssign + MulAssign + DivAssi
     }
 
     fn cov(&self) -> Self {
-        panic!("Not implemented");
+        let (m, n) = (self.nrows(), self.ncols());
+
+        let mu = BaseMatrix::column_mean(self);
+
+        let mut cov = Array::<T, Ix2>::zeros((n, n));
+
+        for k in 0..m {
+            for i in 0..n {
+                for j in 0..=i {
+                    cov[[i, j]] += (self[[k, i]] - mu[i]) * (self[[k, j]] - mu[j]);
+                }
+            }
+        }
+
+        let m_t = T::from(m - 1).unwrap();
+
+        for i in 0..n {
+            for j in 0..=i {
+                cov[[i, j]] /= m_t;
+                cov[[j, i]] = cov[[i, j]];
+            }
+        }
+
+        cov
     }
 }
 
